@@ -19,13 +19,15 @@ def velIdxFrom : Nat → List (Str × Param) → List Int
     if isVel cp.2 then ((i + 1 : Nat) : Int) :: velIdxFrom (i + 1) r else velIdxFrom (i + 1) r
 
 /-- **remove_velocity: estimates.**  The loop keeps exactly the non-velocity estimate lines, in
-order, renumbered `n+1, n+2, …`, and collects the indices of the velocity lines. -/
-theorem velEstLoop_estLinesFrom (ps : List (Str × Param)) (i n : Nat)
+order, renumbered `n+1, n+2, …`, and collects the indices of the velocity lines (`tail`: what
+follows the data lines, e.g. the block terminator). -/
+theorem velEstLoop_estLinesFrom_append (ps : List (Str × Param)) (i n : Nat) (tail tout : List Str)
+    (htail : ∀ n', velEstLoop tail n' = .ok (tout, []))
     (hok : ∀ cp ∈ ps, cpOk cp) (hi : i + ps.length < 100000) (hn : n + ps.length < 100000) :
-    velEstLoop (estLinesFrom i ps) n
-      = .ok (estLinesFrom n (ps.filter (fun cp => !isVel cp.2)), velIdxFrom i ps) := by
+    velEstLoop (estLinesFrom i ps ++ tail) n
+      = .ok (estLinesFrom n (ps.filter (fun cp => !isVel cp.2)) ++ tout, velIdxFrom i ps) := by
   induction ps generalizing i n with
-  | nil => rfl
+  | nil => simpa [estLinesFrom, velIdxFrom] using htail n
   | cons cp r ih =>
     have hcp := hok cp (by simp)
     have hi1 : i + 1 < 100000 := by simp at hi; omega
@@ -34,15 +36,15 @@ theorem velEstLoop_estLinesFrom (ps : List (Str × Param)) (i n : Nat)
       ih (i + 1) n' (fun x hx => hok x (by simp [hx])) (by simp at hi; omega) hn'
     by_cases hv : isVel cp.2 = true
     · have hv' : (cp.2.typ.take 3 == "VEL".toList) = true := hv
-      simp only [estLinesFrom, velEstLoop, hs, hv', if_true, slice_idx_estLine hi1, parseInt_space_fmt5d,
-        ihr n (by simp at hn; omega), List.filter_cons, hv, Bool.not_true, Bool.false_eq_true, if_false,
-        velIdxFrom]
+      simp only [estLinesFrom, List.cons_append, velEstLoop, hs, hv', if_true, slice_idx_estLine hi1,
+        parseInt_space_fmt5d, ihr n (by simp at hn; omega), List.filter_cons, hv, Bool.not_true,
+        Bool.false_eq_true, if_false, velIdxFrom]
     · have hv' : (cp.2.typ.take 3 == "VEL".toList) = false := by simpa [isVel] using hv
       have hv'' : isVel cp.2 = false := by simpa using hv
       have hline : estLine (i + 1) cp.1 cp.2 = ' ' :: (fmt5d ((i + 1 : Nat) : Int) ++ ' ' :: cp.2.typ ++ ' ' :: cp.1 ++ cp.2.rest) := by
         simp [estLine, List.append_assoc]
-      simp only [estLinesFrom, velEstLoop, hs, hv', Bool.false_eq_true, if_false, List.filter_cons, hv'',
-        Bool.not_false, if_true, velIdxFrom]
+      simp only [estLinesFrom, List.cons_append, velEstLoop, hs, hv', Bool.false_eq_true, if_false,
+        List.filter_cons, hv'', Bool.not_false, if_true, velIdxFrom]
       rw [hline]
       simp only [show ((' ' == '+') || (' ' == '*') || (' ' == '-')) = false by decide, Bool.false_eq_true,
         if_false, ihr (n + 1) (by simp at hn; omega)]
@@ -58,5 +60,130 @@ theorem params_removeVel (s : Sol) (c : Clock) :
     simp only [List.map_cons, List.flatMap_cons, List.filter_append, ih]
     congr 1
     simp [List.filter_map, Function.comp_def]
+
+end Sinex
+
+namespace Sinex
+open Sinex.Spec
+
+/-! ## the header of `remove_velocity_sinex` -/
+
+theorem rstrip_append_newline (H : Str) : rstrip (H ++ ['\n']) = rstrip H := by
+  simp [rstrip, isSpace]
+
+theorem rstrip_append_space (H : Str) : rstrip (H ++ [' ']) = rstrip H := by
+  simp [rstrip, isSpace]
+
+theorem lstrip_of_head {l r : Str} {c : Char} (h : l = c :: r) (hc : isSpace c = false) : lstrip l = l := by
+  subst h; simp [lstrip, hc]
+
+theorem filter_notVel_length {ps : List Param} (hl : ps.length = 6) (hok : paramsOk 0 ps = true) :
+    (ps.filter (fun p => !isVel p)).length = 3 := by
+  match ps, hl with
+  | [p0, p1, p2, p3, p4, p5], _ =>
+    simp only [paramsOk, paramOk, Bool.and_eq_true, beq_iff_eq, Bool.and_true] at hok
+    obtain ⟨⟨_, h0⟩, ⟨_, h1⟩, ⟨_, h2⟩, ⟨_, h3⟩, ⟨_, h4⟩, ⟨_, h5⟩⟩ := hok
+    simp at h0 h1 h2 h3 h4 h5
+    simp [h0, h1, h2, h3, h4, h5]
+
+theorem n_removeVel {s : Sol} (h : WF s) (hv : s.vel = true) (c : Clock) :
+    (Spec.removeVel s c).n = 3 * s.solns.length := by
+  unfold Sol.n Sol.params
+  simp only [Spec.removeVel, touch]
+  have hk : s.k = 6 := by simp [Sol.k, hv]
+  have := length_flatMap_const (k := 3)
+    (s.solns.map (fun x => { x with params := x.params.filter (fun p => !isVel p) })) (by
+      intro y hy
+      simp only [List.mem_map] at hy
+      obtain ⟨x, hx, rfl⟩ := hy
+      have hx' := h.soln_ok x hx
+      exact filter_notVel_length (by rw [hx'.2.1, hk]) hx'.2.2)
+  simpa using this
+
+/-- **remove_velocity: header.**  Stamp replaced by position, count halved and zero-padded to
+five digits, only the flag ` V` removed. -/
+theorem velHeader_render {s : Sol} (h : WF s) (hv : s.vel = true) {c : Clock} (hc : c.Valid) :
+    velHeader (render s) c = .ok (headerLine (Spec.removeVel s c)) := by
+  have hn := h.n_lt
+  have hcnt := fmt0d5_length hn
+  have hst := stamp_length hc
+  obtain ⟨a, t, hA⟩ : ∃ a t, s.hdrA = a :: t := by
+    cases hA : s.hdrA with
+    | nil => have := h.hdrA_head; simp [hA] at this
+    | cons a t => exact ⟨a, t, rfl⟩
+  have ha : a = '%' := by have := h.hdrA_head; simpa [hA] using this
+  let T : Str := s.hdrB ++ (fmt0d 5 (s.n : Int) ++ (s.hdrC ++ " V".toList))
+  have eHL : headerLine s = s.hdrA ++ (s.stamp ++ T) := by
+    simp [headerLine, hv, T, List.append_assoc]
+  have elast : (s.hdrA ++ (s.stamp ++ T)).getLast? = some 'V' := by
+    have : s.hdrA ++ (s.stamp ++ T) = (s.hdrA ++ s.stamp ++ s.hdrB ++ fmt0d 5 (s.n : Int) ++ s.hdrC ++ [' ']) ++ ['V'] := by
+      simp [T, List.append_assoc]
+    rw [this]; exact List.getLast?_concat
+  have estrip : strip (readHeaderLine (render s)) = s.hdrA ++ (s.stamp ++ T) := by
+    have : readHeaderLine (render s) = (s.hdrA ++ (s.stamp ++ T)) ++ ['\n'] := by
+      simp [readHeaderLine, render, renderWith, wl, eHL]
+    rw [this, strip, rstrip_append_newline, rstrip_of_getLast elast (by decide)]
+    exact lstrip_of_head (c := '%') (r := t ++ (s.stamp ++ T)) (by simp [hA, ha]) (by decide)
+  have e1 : (s.hdrA ++ (s.stamp ++ T)).take 15 = s.hdrA := List.take_left' h.hdrA_len
+  have e2 : (s.hdrA ++ (s.stamp ++ T)).drop 27 = T := by
+    rw [← List.append_assoc]; exact List.drop_left' (by simp [h.hdrA_len, h.stamp_len])
+  have e3 : slice 60 65 (s.hdrA ++ stamp c ++ T) = fmt0d 5 (s.n : Int) := by
+    have : s.hdrA ++ stamp c ++ T = (s.hdrA ++ stamp c ++ s.hdrB) ++ (fmt0d 5 (s.n : Int) ++ (s.hdrC ++ " V".toList)) := by
+      simp [T, List.append_assoc]
+    rw [this, slice, List.drop_left' (by simp [h.hdrA_len, hst, h.hdrB_len]), List.take_left' (by simp [hcnt])]
+  have e5 : (s.hdrA ++ stamp c ++ T).take 60 = s.hdrA ++ stamp c ++ s.hdrB := by
+    have : s.hdrA ++ stamp c ++ T = (s.hdrA ++ stamp c ++ s.hdrB) ++ (fmt0d 5 (s.n : Int) ++ (s.hdrC ++ " V".toList)) := by
+      simp [T, List.append_assoc]
+    rw [this]; exact List.take_left' (by simp [h.hdrA_len, hst, h.hdrB_len])
+  have e6 : (s.hdrA ++ stamp c ++ T).drop 65 = s.hdrC ++ " V".toList := by
+    have : s.hdrA ++ stamp c ++ T = (s.hdrA ++ stamp c ++ s.hdrB ++ fmt0d 5 (s.n : Int)) ++ (s.hdrC ++ " V".toList) := by
+      simp [T, List.append_assoc]
+    rw [this]; exact List.drop_left' (by simp [h.hdrA_len, hst, h.hdrB_len, hcnt])
+  have hnum : Int.tdiv (s.n : Int) 2 = ((Spec.removeVel s c).n : Int) := by
+    rw [n_removeVel h hv, n_eq h]
+    have hk : s.k = 6 := by simp [Sol.k, hv]
+    rw [hk, Int.natCast_tdiv_eq_ediv]
+    omega
+  have hfin : rstrip ((s.hdrA ++ stamp c ++ s.hdrB ++ fmt0d 5 ((Spec.removeVel s c).n : Int) ++
+      (s.hdrC ++ " V".toList)).dropLast) = headerLine (Spec.removeVel s c) := by
+    have : s.hdrA ++ stamp c ++ s.hdrB ++ fmt0d 5 ((Spec.removeVel s c).n : Int) ++ (s.hdrC ++ " V".toList)
+        = ((s.hdrA ++ stamp c ++ s.hdrB ++ fmt0d 5 ((Spec.removeVel s c).n : Int) ++ s.hdrC) ++ [' ']) ++ ['V'] := by
+      simp [List.append_assoc]
+    rw [this, List.dropLast_concat, rstrip_append_space]
+    have hC := h.hdrC_last
+    obtain ⟨ch, hch, hsp⟩ := hC
+    rw [rstrip_of_getLast (c := ch) (by rw [List.getLast?_append, hch]; rfl) hsp]
+    simp [headerLine, Spec.removeVel, touch, List.append_assoc]
+  unfold velHeader
+  simp only [estrip, elast, show (('V' : Char) != 'V') = false by decide, Bool.false_eq_true, if_false,
+    e1, e2, e3, e5, e6, parseInt_fmt0d, hnum]
+  exact congrArg Except.ok hfin
+
+end Sinex
+
+namespace Sinex
+open Sinex.Spec
+
+theorem velEstLoop_marker (l : Str) (ls : List Str) (n : Nat) {c : Char} {r : Str} (hl : l = c :: r)
+    (hc : (c == '+' || c == '*' || c == '-') = true) (hv : (slice 7 10 l == "VEL".toList) = false)
+    (out : List Str) (idx : List Int) (h : velEstLoop ls n = .ok (out, idx)) :
+    velEstLoop (l :: ls) n = .ok (l :: out, idx) := by
+  subst hl
+  simp only [velEstLoop, hv, Bool.false_eq_true, if_false, hc, if_true, h]
+
+theorem velEstLoop_render {s : Sol} (h : WF s) (c : Clock) :
+    velEstLoop (estBlock s) 0 = .ok (estBlock (Spec.removeVel s c), velIdxFrom 0 s.params) := by
+  have hlen : 0 + s.params.length < 100000 := by simpa [Sol.n] using h.n_lt
+  have e1 : "+SOLUTION/ESTIMATE".toList = '+' :: "SOLUTION/ESTIMATE".toList := rfl
+  have e2 : estTitle = '*' :: estTitle.tail := rfl
+  have e3 : "-SOLUTION/ESTIMATE".toList = '-' :: "SOLUTION/ESTIMATE".toList := rfl
+  have htail : ∀ n', velEstLoop ["-SOLUTION/ESTIMATE".toList] n' = .ok (["-SOLUTION/ESTIMATE".toList], []) :=
+    fun n' => velEstLoop_marker _ [] n' e3 (by decide) (by decide) [] [] rfl
+  have hdata := velEstLoop_estLinesFrom_append s.params 0 0 _ _ htail (cpOk_of_wf h) hlen hlen
+  unfold estBlock
+  rw [List.cons_append, List.cons_append]
+  rw [velEstLoop_marker _ _ 0 e1 (by decide) (by decide) _ _
+    (velEstLoop_marker _ _ 0 e2 (by decide) (by decide) _ _ hdata), params_removeVel]
+  simp
 
 end Sinex
